@@ -42,6 +42,7 @@ type pxScenario struct {
 	Short    int    `json:"short"`
 	Werr     int    `json:"werr"`
 	Stop     bool   `json:"stop"`
+	Flip     bool   `json:"flip"`
 	Assigned bool   `json:"assigned"`
 	Unit     int    `json:"unit"` // bytes per unit (chosen by the orchestrator from the seed)
 }
@@ -256,6 +257,14 @@ func runProxyCase(world *sideWorld, proxyURL *url.URL, sc *pxScenario, rnd *rand
 	}
 	const ctype = "text/plain; version=0.0.4; charset=utf-8; x-case=1"
 	world.cli.Transport = roundTripFunc(func(r *http.Request) (*http.Response, error) {
+		if sc.Flip {
+			// the stop setting changes while the target is answering
+			other := ""
+			if !sc.Stop {
+				other = "scraping stopped by the administrator (mid-scrape)"
+			}
+			_ = world.cfgm.UpdateExtraConfig(prom.ExtraConfig{StopScrapeReason: other})
+		}
 		pre := world.sim.answer(r)
 		if pre.err != nil {
 			return nil, pre.err
